@@ -1180,6 +1180,13 @@ func (d *indexData) newMatchTree(q query.Q, opt matchTreeOpt) (matchTree, error)
 				regexpMT = t
 			}
 		})
+		if re, ok := s.Expr.(*query.Regexp); ok {
+			// Sections are matched against the regexp of the query itself. subMT
+			// may hold further regexpMatchTrees (for literals shorter than a
+			// trigram) or none at all (an alternation of literals), so it can
+			// only serve as the document iterator.
+			regexpMT = newRegexpMatchTree(re)
+		}
 		if regexpMT == nil {
 			return nil, fmt.Errorf("found %T inside query.Symbol", subMT)
 		}
